@@ -55,7 +55,8 @@ def case_strategy(unit, allow_special, box, nhkl=3):
         "ang": st.tuples(S.fl(50, 115), S.fl(60, 120), S.fl(-1, 1)).map(list), "orth": st.integers(0, 4).map(lambda i: i == 0),
         "atoms": st.one_of(st.lists(atom_strategy(allow_special), min_size=1, max_size=4), st.lists(atom_strategy(allow_special), min_size=5, max_size=9)),
         "dup": st.sampled_from([None, None, None, 0, 1]),
-        "hkl": st.lists(S.hkls(box, allow_zero=True, big=3 * box), min_size=nhkl, max_size=nhkl),
+        # (the wider box is chosen per case, not per reflection, so that three cases in four stay entirely inside the ordinary box)
+        "hkl": st.one_of(*([st.lists(S.hkls(box, allow_zero=True), min_size=nhkl, max_size=nhkl)] * 3 + [st.lists(S.hkls(3 * box, allow_zero=True), min_size=nhkl, max_size=nhkl)])),
         "op": st.integers(0, 191), "ext_pick": S.fl(0, 1), "disper": st.sampled_from(["table", "table", "absent"]),
         "prev_cell": st.one_of(st.none(), st.none(), S.fl(0.7, 1.4), S.logfl(1e-8, 1e-3)),
         "pos_as": st.sampled_from(["array", "array", "list", "int-if-integral"]),
@@ -166,6 +167,17 @@ def build(case):
     M.S = sum(m["occ"] * m["mult"] * ff(m["el"], 0.0) for m in M.model)
     M.sumf0 = sum(m["occ"] * ff(m["el"], 0.0) for m in M.model)
     return M
+
+
+def classify(case, M, ctx):
+    """generator statistics for the evidence file"""
+    if max([abs(int(x)) for h in case["hkl"] for x in h] + [0]) > 30:
+        ctx.event("far-case (40x cell, indices up to 200)")
+    if M.npd:
+        ctx.event("negative-Uiso-or-non-positive-definite-Uani")
+    ca = M.cell_arg
+    if all(isinstance(x, (int, np.integer)) for x in (ca.tolist() if hasattr(ca, "tolist") else ca)):
+        ctx.event("integer-typed-cell")
 
 
 def explicit_F(M, h):
